@@ -281,16 +281,17 @@ class Gen:
         elif r < 0.35:
             tail += ' throw()'
             fn.throw = V()
-        if tmpl is not None and tail == '' and not trailing and rng.random() < 0.3:
-            # a trailing requires-clause (only on templates, in place of an exception specification): any clause shape in
-            # front of any ending -- ';', a body, `= delete`
+        req = ''
+        if tmpl is not None and rng.random() < 0.3:
+            # a trailing requires-clause (only on templates): any clause shape, behind the exception specification and behind a
+            # trailing return type (F37), in front of any ending -- ';', a body, `= delete`
             c = self.requires_clause()
             fn.raw_requires = V(*c)
-            tail = ' requires ' + ' '.join(c)
+            req = ' requires ' + ' '.join(c)
             self.kinds.add('trailing requires clause')
         if trailing:
             b, ls = decl.layers(rt)
-            head = ' '.join(specs + ['auto', name]) + '(' + ptxt + ')' + tail + ' -> ' + ' '.join(decl.print_decl(rt, None))
+            head = ' '.join(specs + ['auto', name]) + '(' + ptxt + ')' + tail + ' -> ' + ' '.join(decl.print_decl(rt, None)) + req
             fn.has_trailing_return = True
         else:
             ft = ('F', rt, (), False)
@@ -299,7 +300,7 @@ class Gen:
             conv = self.convention(rt) if op is None else None
             fn.msvc_convention = conv
             core = [(conv + ' ' if conv else '') + name + '(' + ptxt + ')']
-            head = ' '.join(specs + decl.base_tokens(b) + decl.print_layers(ls, core)) + tail
+            head = ' '.join(specs + decl.base_tokens(b) + decl.print_layers(ls, core)) + tail + req
             self.kinds.add('function returning ' + rt[0])
         e = rng.random()
         if e < 0.3:
